@@ -58,3 +58,12 @@ Proof.
   apply (perm_trans (l' := [1;2;4;3]%nat)); [apply perm_swap|].
   apply perm_skip. apply perm_skip. apply perm_swap.
 Qed.
+
+(* ---- links ---- *)
+(** C12 o C04: the output of parallel compression, loaded by a reader that knows only the
+    text of the properties file, is the input graph — every expressible flags record, both
+    endiannesses, every legal cut sequence, per-chunk selection and completion order *)
+From WG Require Import Flags.Props Links.LoadLinkStatements Links.LoadLinkFacts.
+Theorem C04_link_load_par : S_link_load_par.
+Proof. exact link_load_par. Qed.
+Print Assumptions C04_link_load_par.
